@@ -221,6 +221,29 @@ func (e *Exec) intrinsic(caller *frame, fn *ssa.Function, name string, args []Va
 		case *Term:
 			return e.simpBool(r), true
 		}
+	case "internal/reflectlite.ValueOf":
+		return Native{reflectVal{args[0].(Iface)}}, true
+	case "(internal/reflectlite.Value).Len":
+		rv := args[0].(Native).V.(reflectVal)
+		if sl, ok := rv.v.V.(Slice); ok {
+			return uint64(len(sl.A)), true
+		}
+		e.unsupported("reflectlite.Value.Len on %T", rv.v.V)
+	case "internal/reflectlite.Swapper":
+		iv := args[0].(Iface)
+		sl, ok := iv.V.(Slice)
+		if !ok {
+			e.unsupported("reflectlite.Swapper on %T", iv.V)
+		}
+		return NativeFunc(func(e *Exec, a []Value) Value {
+			i := int(int64(e.concInt(a[0], types.Typ[types.Int])))
+			j := int(int64(e.concInt(a[1], types.Typ[types.Int])))
+			if i < 0 || j < 0 || i >= len(sl.A) || j >= len(sl.A) {
+				panic(rtPanic("reflect: slice index out of range"))
+			}
+			sl.A[i], sl.A[j] = sl.A[j], sl.A[i]
+			return nil
+		}), true
 	case "regexp.MustCompile":
 		return Native{regexp.MustCompile(e.strArg(args[0]))}, true
 	case "(*regexp.Regexp).Match":
@@ -267,6 +290,9 @@ func (e *Exec) intrinsic(caller *frame, fn *ssa.Function, name string, args []Va
 
 type reflectVal struct{ v Iface }
 
+// NativeFunc is a function value implemented by the interpreter itself.
+type NativeFunc func(e *Exec, args []Value) Value
+
 // Native wraps an opaque natively evaluated object (e.g. a compiled regular expression).
 type Native struct{ V any }
 
@@ -293,7 +319,7 @@ var intrinsicNames = []string{
 	"(*sync.WaitGroup).Add", "(*sync.WaitGroup).Done", "(*sync.WaitGroup).Wait",
 	"(*sync.Mutex).Lock", "(*sync.Mutex).Unlock", "(*sync.RWMutex).Lock", "(*sync.RWMutex).Unlock", "(*sync.RWMutex).RLock", "(*sync.RWMutex).RUnlock",
 	"runtime.Gosched",
-	"reflect.ValueOf", "(reflect.Value).IsZero",
+	"reflect.ValueOf", "(reflect.Value).IsZero", "internal/reflectlite.ValueOf", "(internal/reflectlite.Value).Len", "internal/reflectlite.Swapper",
 	"regexp.MustCompile", "(*regexp.Regexp).Match", "(*regexp.Regexp).MatchString", "(*regexp.Regexp).FindStringSubmatch",
 	"strings.ToLower", "strings.ToUpper", "strings.Contains", "strings.HasPrefix", "strings.HasSuffix", "strings.Repeat",
 	"strconv.ParseUint", "strconv.ParseInt",
